@@ -490,8 +490,9 @@ struct Gen<'r> {
     next_distinct: u64,
 }
 
-const NAMES: [&str; 8] = ["a", "b", "c", "d", "e", "f", "g", "h"];
-const DIRS: [&str; 5] = ["", "", "d1/", "d2/", "d1/n/"];
+// "A" / "B" are different files from "a" / "b" (paths are compared byte for byte)
+const NAMES: [&str; 10] = ["a", "b", "c", "d", "e", "f", "g", "h", "A", "B"];
+const DIRS: [&str; 6] = ["", "", "d1/", "d2/", "d1/n/", "D1/"];
 
 impl<'r> Gen<'r> {
     fn new(rng: &'r mut Rng) -> Self {
@@ -988,6 +989,13 @@ impl Prop for C15 {
                 "created /root/c 30 n-5000", "created /root/a 10 n-5000", "created /root/d 40 n-5000",
                 "created /root/b 20 n-5000", "created /root/c 30 n-5000", "deleted /root/a",
                 "created /root/a 10 n-5000", "maxsize 60", "evict", "close",
+            ]),
+            // paths that differ only in letter case are different files with their own rows
+            fixed("f-case-twins", &[
+                "mkdir /root", "open /root", "mkfile /root/d1/ABC", "mkfile /root/d1/abc", "mkfile /root/D1/abc", "mkfile /root/z",
+                "created /root/d1/ABC 60 n-4000", "created /root/d1/abc 60 n-3000", "created /root/D1/abc 20 n-2500",
+                "created /root/z 30 n-2000", "maxsize 100", "evict", "evict", "accessed /root/d1/abc n-10",
+                "deleted /root/D1/abc", "maxsize 30", "evict", "restart", "evict", "close",
             ]),
             // age boundary: atime == cutoff stays, one second older goes
             fixed("f-age-boundary", &[
